@@ -221,6 +221,18 @@ class Parser:
         k, v = self.next()
         if k == 'num':
             return ('num', v)
+        if k == 'id' and v == 'if':
+            # `if c { e1 } else { e2 }` as an expression
+            c = self.parse_expr()
+            self.expect('{')
+            e1 = self.parse_expr()
+            self.expect('}')
+            if self.next() != ('id', 'else'):
+                raise TranslateError('if-expression without else')
+            self.expect('{')
+            e2 = self.parse_expr()
+            self.expect('}')
+            return ('ifexpr', c, e1, e2)
         if k == 'id':
             return ('id', v)
         if k == 'op' and v == '(':
